@@ -188,3 +188,16 @@ impl Invariant for Vec<VecDeque<NodeRef>> {
         }
     }
 }
+
+#[cfg(cormacrelf_incremental_rs_verif)]
+impl AdjustHeightsHeap {
+    /// Verification-only: (length, height_lower_bound, max_height_seen, nodes actually queued)
+    pub(crate) fn verif_state(&self) -> (usize, i32, i32, usize) {
+        (
+            self.length,
+            self.height_lower_bound,
+            self.max_height_seen,
+            calculate_len(&self.queues),
+        )
+    }
+}
